@@ -362,6 +362,11 @@ const PORTFOLIOS: &[&str] = &["intuitionistic", "ht", "classic"];
 const STRATEGIES: &[&str] = &["shallow", "recursive", "fixpoint"];
 
 fn gen_simplify(rng: &mut Rng) -> Sexp {
+    if rng.chance(4) {
+        // the fixpoint strategy on formulas that need a dozen passes and more (at most 64 in the model)
+        let pf = *rng.pick(&["classic", "classic", "ht"]);
+        return case(cmd("simplify", &[pf, "fixpoint"]), super::gentext::deep_theory_text(rng));
+    }
     let pf = *rng.pick(PORTFOLIOS);
     let st = *rng.pick(STRATEGIES);
     case(cmd("simplify", &[pf, st]), simplify_text(rng, 6))
